@@ -41,6 +41,8 @@ def _ops_history(r, n_modules_hint: int = 6) -> list[dict]:  # noqa: ANN001
                         "prefix": r.choice([0.3, 0.6, 1.0])})
         elif k == "GEN_ONE":
             ops.append({"op": "GEN_ONE", "flag": r.random() < 0.5, "model": r.choice(["live", "fresh"]), "module": r.randrange(0, 64)})
+        elif k == "WRITE":
+            ops.append({"op": "WRITE", "model": r.choice(["live", "fresh"]), "flag": r.random() < 0.5, "repeat": r.choice([1, 2, 2])})
         else:
             ops.append({"op": k, "model": "live", "flag": r.random() < 0.5})
     ops.append({"op": "GEN", "flag": False, "model": "live"})
@@ -83,7 +85,7 @@ def plan_e_histories(case: dict, ref: dict) -> list[list[dict]]:
     hs: list[list[dict]] = [[{"sigma": sigma}, {"sigma": sigma}]]
     # the second run reaches the same output directory from another working directory / through another spelling
     other = dict(sigma, **engine.sample_sigma(r, ["cwd", "out_spelling", "src_spelling"]))
-    if other.get("out_spelling") == "nested":
+    if other.get("out_spelling") in ("nested", "nested_rel"):
         other["out_spelling"] = "rel"
     if other.get("cwd") == "out":
         other["cwd"] = "proj"
@@ -232,6 +234,18 @@ def judge_component(case: dict, res: dict) -> tuple[list[dict], dict]:
                         detail["diff"] = list(difflib.unified_diff(texts[diff["first"][2]].splitlines(), texts[diff["second"][2]].splitlines(), lineterm="", n=1))[:20]
                     viols.append({"class": "regeneration-differs", "history": 0, "detail": detail})
                     break
+        elif rec["op"] == "WRITE":
+            for tr in rec.get("trees") or []:
+                stats["second_renderings"] += 1
+                key = ("__write__", flag)
+                if key not in module_text:
+                    module_text[key] = tr[1]
+                    module_text_op[key] = rec["k"]
+                elif module_text[key] != tr[1]:
+                    viols.append({"class": "written-tree-depends-on-history", "history": 0,
+                                  "detail": {"flag": flag, "k": rec["k"], "baseline_k": module_text_op[key], "files": tr[0], "op": spec,
+                                             "fingerprint": {"gkey": "write-tree"}}})
+                    return viols, stats
         elif rec["op"] in ("GEN_SEQ", "GEN_ONE"):
             items = rec.get("modules") or ({rec["module_id"]: rec["text"]} if rec.get("module_id") else {})
             for mid, sha in items.items():
